@@ -595,7 +595,7 @@ Fixpoint sched_of (s : gst) (cs : list (Z * Z * Z * Z)) : option (list (Z * even
    the push +2 (queue.c:5052) is always consumed by wakeup / invoke / invoke_finish before quiescence. *)
 Record lobj := { lx : Z; linactive : bool; lsusp : Z; lkids : Z; lsrc : bool; ldeleted : bool; larmed : bool }.
 Definition lane_ref (o : lobj) : Z :=
-  (if 0 <? lx o then 1 else 0) + (if linactive o then 2 else 0) + (if 0 <? lsusp o then 2 else 0) + lkids o +
+  (if 0 <? lx o then 1 else 0) + (if linactive o then 2 else 0) + (if (0 <? lsusp o) && negb (linactive o) then 2 else 0) + lkids o +
   (if larmed o then 2 else 0) + (if lsrc o && negb (ldeleted o) then 1 else 0) - 1.
 Definition lane_xref (o : lobj) : Z := lx o - 1.
 Definition lane_disposed (o : lobj) : bool := lane_ref o <? 0.
